@@ -152,11 +152,17 @@ func (r *FileRestorer) RestoreFile(file *dst.File) (*ast.File, error) {
 		// Sometimes new nodes are created here (e.g. in RangeStmt the "Object" is an AssignStmt
 		// which never occurs in the actual code). These shouldn't have position information but
 		// perhaps it doesn't matter?
-		for o, dn := range r.nodeDecl {
-			o.Decl = r.restoreNode(dn, "", "", "", true)
-		}
-		for o, dn := range r.nodeData {
-			o.Data = r.restoreNode(dn, "", "", "", true)
+		// Restoring a declaring node can meet further objects, whose links are deferred in turn:
+		// repeat until none is left.
+		for len(r.nodeDecl) > 0 || len(r.nodeData) > 0 {
+			for o, dn := range r.nodeDecl {
+				delete(r.nodeDecl, o)
+				o.Decl = r.restoreNode(dn, "", "", "", true)
+			}
+			for o, dn := range r.nodeData {
+				delete(r.nodeData, o)
+				o.Data = r.restoreNode(dn, "", "", "", true)
+			}
 		}
 	}
 
